@@ -66,6 +66,12 @@ impl Field for Ed448ScalarField {
     }
 
     fn deserialize(buf: &Self::Serialization) -> Result<Self::Scalar, FieldError> {
+        // Scalars are serialized in 57 bytes (RFC 8032) but fit in 56, so the last
+        // byte must be zero. `from_canonical_bytes` does not reject a non-zero last
+        // byte when the first 56 bytes are canonical, so check it here.
+        if buf[56] != 0 {
+            return Err(FieldError::MalformedScalar);
+        }
         match EdwardsScalar::from_canonical_bytes(buf.into()).into() {
             Some(s) => Ok(s),
             None => Err(FieldError::MalformedScalar),
